@@ -110,4 +110,25 @@ def toggleRel (g g' : Genome W) : Option String :=
 def reenableRel (weq : W → W → Bool) (g g' : Genome W) : Option String :=
   if genesEq weq (reenableFirst g.genes) g'.genes then none else some "not-exactly-first-disabled-gene-enabled"
 
+/-- result `false` of add-link / connect-sensors: the genome is unchanged (proved of the model: `mutateAddLink_false`,
+    `mutateConnectSensors_spec`) -/
+def unchangedRel (weq : W → W → Bool) (g g' : Genome W) : Option String :=
+  if !traitsEq weq g.traits g'.traits then some "false-result-but-traits-changed"
+  else if g'.nodes != g.nodes then some "false-result-but-nodes-changed"
+  else if !genesEq weq g.genes g'.genes then some "false-result-but-genes-changed"
+  else none
+
+/-- result `false` of add-node: nodes and traits unchanged; the gene list is unchanged or differs in exactly one
+    previously enabled gene that is now disabled (the documented exit after the chosen gene was disabled; proved of the
+    model: `mutateAddNode_false`) -/
+def addNodeFalseRel (weq : W → W → Bool) (g g' : Genome W) : Option String :=
+  if !traitsEq weq g.traits g'.traits then some "false-result-but-traits-changed"
+  else if g'.nodes != g.nodes then some "false-result-but-nodes-changed"
+  else if g.genes.length != g'.genes.length then some "false-result-but-gene-count-changed"
+  else
+    let diff := (List.zip g.genes g'.genes).filter (fun (x, y) => !geneEq weq x y)
+    if diff.isEmpty then none
+    else if diff.length == 1 && diff.all (fun (x, y) => x.en && !y.en && geneEq weq { x with en := false } y) then none
+    else some "false-result-but-genes-changed"
+
 end GoNeat.MutationSpec
